@@ -84,7 +84,7 @@ Proof.
   set (c := lcp prev key) in *.
   destruct (bcmp prev key) eqn:E.
   - subst key. unfold c. rewrite lcp_refl. replace (length prev - length prev)%nat with 0%nat by lia.
-    cbn [Nat.ltb Nat.leb andb]. rewrite Nat.ltb_irrefl. cbn [andb]. split; discriminate.
+    rewrite !Nat.ltb_irrefl. cbn [andb]. split; discriminate.
   - split; [reflexivity|intros _]. destruct Vw as [[Ea Eb]|[[Ea Eb] Ec]].
     + replace (Nat.ltb 0 (length key - c)) with true by (symmetry; apply Nat.ltb_lt; lia).
       replace (Nat.eqb (length prev) c) with true by (symmetry; apply Nat.eqb_eq; lia). reflexivity.
@@ -93,7 +93,7 @@ Proof.
       replace (Nat.ltb c (length key)) with true by (symmetry; apply Nat.ltb_lt; lia).
       replace (nth c prev 0 <? nth c key 0) with true by (symmetry; apply N.ltb_lt; exact Ec). reflexivity.
   - split; [|discriminate]. destruct Vw as [[Ea Eb]|[[Ea Eb] Ec]].
-    + replace (length key - c)%nat with 0%nat by lia. cbn [Nat.ltb Nat.leb andb].
+    + replace (length key - c)%nat with 0%nat by lia. rewrite Nat.ltb_irrefl. cbn [andb].
       replace (Nat.ltb c (length key)) with false by (symmetry; apply Nat.ltb_ge; lia). rewrite andb_false_r. discriminate.
     + replace (Nat.eqb (length prev) c) with false by (symmetry; apply Nat.eqb_neq; lia). rewrite andb_false_r.
       replace (nth c prev 0 <? nth c key 0) with false by (symmetry; apply N.ltb_ge; lia). rewrite andb_false_r. discriminate.
@@ -197,7 +197,7 @@ Section Inv.
     exists st', insert st (k, v) = WOk st' /\ winv st' (D ++ [(k, v)]).
   Proof.
     intros (rBs & C & HD & Hblk & Hvals & Hprev & Hnum & Hfo & Hrel) Hord.
-    unfold insert. cbn [fst snd].
+    unfold Writer.insert. cbn [fst snd].
     (* --- insert_key --- *)
     assert (Hkey : exists done',
       insert_key st k = WOk {| w_prev := k; w_done := done'; w_block := encode_block_keys (keys (C ++ [(k, v)]));
@@ -348,19 +348,41 @@ Section Inv.
      the block already holds a key -- which can only be the empty key *)
   Definition F11_state (st : wstate) (k : bytes) : Prop := k = [] /\ w_prev st = [] /\ w_block st <> [].
 
-  Theorem rejects_unordered st lk k :
+  (* fixed shape: no exception *)
+  Theorem rejects_unordered st lk k : order_fixed = true ->
+    reachable st (Some lk) -> ble k lk = true ->
+    exists p, insert_key st k = WPanic p.
+  Proof.
+    intros Hfix Hr Hle. destruct (reachable_remembers _ _ Hr) as [Hrem _]. cbn [remembers] in Hrem.
+    unfold Writer.insert_key. destruct Hrem as [(Hb & Hp & Hne)|(Hb & Hp & Hf & Hd)].
+    - apply N.eqb_neq in Hne. rewrite Hne, Hp, Hfix.
+      destruct (check_increasing true false lk k _ _) eqn:Ec; [eauto|].
+      exfalso. apply check_increasing_fixed_spec in Ec. rewrite blt_nble, Hle in Ec. discriminate.
+    - rewrite Hf, N.eqb_refl. destruct (w_done st) as [|rb rd]; [tauto|]. cbn [shorten_last]. rewrite Hd.
+      rewrite blt_nble, Hle. cbn [negb]. eauto.
+  Qed.
+
+  (* old shape: everything is rejected except the class F11 *)
+  Theorem rejects_unordered_old st lk k : order_fixed = false ->
     reachable st (Some lk) -> ble k lk = true -> ~ F11_state st k ->
     exists p, insert_key st k = WPanic p.
   Proof.
-    intros Hr Hle Hn11. destruct (reachable_remembers _ _ Hr) as [Hrem _]. cbn [remembers] in Hrem.
-    unfold insert_key. destruct Hrem as [(Hb & Hp & Hne)|(Hb & Hp & Hf & Hd)].
-    - apply N.eqb_neq in Hne. rewrite Hne, Hp.
+    intros Hfix Hr Hle Hn11. destruct (reachable_remembers _ _ Hr) as [Hrem _]. cbn [remembers] in Hrem.
+    unfold Writer.insert_key. destruct Hrem as [(Hb & Hp & Hne)|(Hb & Hp & Hf & Hd)].
+    - apply N.eqb_neq in Hne. rewrite Hne, Hp, Hfix.
       destruct lk as [|l0 lk'].
       + (* last key empty, block not flushed: k <= [] means k = [] : exactly F11 *)
         exfalso. apply Hn11. destruct k; [|discriminate]. repeat split; assumption.
-      + destruct (check_increasing (l0 :: lk') k _ _) eqn:Ec; [eauto|].
+      + destruct (check_increasing false false (l0 :: lk') k _ _) eqn:Ec; [eauto|].
         exfalso. apply check_increasing_spec in Ec; [|discriminate]. rewrite blt_nble, Hle in Ec. discriminate.
     - rewrite Hf, N.eqb_refl. destruct (w_done st) as [|rb rd]; [tauto|]. cbn [shorten_last]. rewrite Hd.
       rewrite blt_nble, Hle. cbn [negb]. eauto.
   Qed.
 End Inv.
+
+(* the pinned source has exactly one of the two known shapes of the ordering assertion (re-run on the
+   regenerated flags: an unrecognised or reverted shape breaks these) *)
+Lemma order_shape_known : SST_ORDER_CHECK_BLOCK_START + SST_ORDER_CHECK_PREV_EMPTY = 1.
+Proof. reflexivity. Qed.
+Lemma order_fixed_pinned : ORDER_FIXED = true.
+Proof. reflexivity. Qed.
